@@ -1364,7 +1364,22 @@ impl<'a, 't, 'g> VGen<'a, 't, 'g> {
     fn gen_config(&mut self, out: &mut Vec<LibraryElementKind>) {
         self.cur_decl = out.len();
         self.cur_class = "config".into();
-        let name = self.fresh();
+        let mut name = self.fresh();
+        // a configuration may be named like a declared data type (another kind of declaration,
+        // never referenced by name; letter case may differ): nothing about the unit changes
+        {
+            let mut tn: Vec<String> = self.enums.iter().map(|e| e.name.clone()).collect();
+            tn.extend(self.structs.iter().map(|e| e.name.clone()));
+            tn.extend(self.array_types.iter().cloned());
+            if !tn.is_empty() && self.t.ratio(1, 4) && self.g.want("CONFIGURATION_NAMED_LIKE_A_TYPE") {
+                let c = tn[self.t.below(tn.len())].clone();
+                name = match self.t.below(3) {
+                    0 => c.to_ascii_uppercase(),
+                    1 => c.to_ascii_lowercase(),
+                    _ => c,
+                };
+            }
+        }
         let mut global_var = vec![];
         let mut resource_globals = vec![];
         for g in self.globals.clone() {
